@@ -126,6 +126,8 @@ theorem subAt_of_at? {t : Tree} {p : Path} {s : Tree} (h : t.at? p = some s) : s
 /-- A valid path. -/
 def Valid (t : Tree) (p : Path) : Prop := (t.at? p).isSome = true
 
+instance (t : Tree) (p : Path) : Decidable (Valid t p) := by unfold Valid; infer_instance
+
 theorem Valid.at? {t : Tree} {p : Path} (h : Valid t p) : t.at? p = some (subAt t p) := by
   unfold Valid at h
   cases h' : t.at? p with
